@@ -93,6 +93,19 @@ def paths_or_undecided(R, clause, paths):
     if not paths:
         R.undecided(clause, "no feasible path (vacuous)")
         return False
+    # frame condition of every path: no write to an object that outlives the call
+    from . import frames
+    base = clause[:-len("/paths")] if clause.endswith("/paths") else clause
+    bad = []
+    for p in paths:
+        v = frames.violations(p.ctx)
+        if v:
+            bad.append((p.ctx.signature(), v))
+    if bad:
+        R.fail(f"{base}/frame", f"writes to objects that outlive the call: {bad[0][1][:4]!r} on path {bad[0][0]}",
+               replay=dict(kind="frame", where=bad[0][1][0][1]))
+    else:
+        R.ok(f"{base}/frame", "structural", f"{len(paths)} path(s): every heap write goes to an object created by the call or its harness")
     return True
 
 
